@@ -86,8 +86,12 @@ var filePool = []string{
 	"file://" + Prefix + "/api/dotted.name/m.v2.json",
 	// folders whose names extend (or are extended by) the name of the root's folder or of another folder
 	"file://" + Prefix + "/api-shared/s.json", "file://" + Prefix + "/ap/t.json", "file://" + Prefix + "/api/sub-x/u.json",
+	// the same file name in another folder: identical relative spellings that mean different documents
+	"file://" + Prefix + "/lib/b.json", "file://" + Prefix + "/api/d.json",
 }
-var httpPool = []string{"http://h.test/x/f.json", "http://h.test/x/y/i.json", "https://s.test/j.json", "http://h.test/n.json", "http://h.test/x-y/o.json"}
+var httpPool = []string{"http://h.test/x/f.json", "http://h.test/x/y/i.json", "https://s.test/j.json", "http://h.test/n.json", "http://h.test/x-y/o.json",
+	// same path on another host / port / scheme
+	"http://h2.test/x/f.json", "http://h.test:8081/x/f.json", "https://h.test/x/f.json"}
 
 var oddNames = []string{"a/b", "t~x", "sp ace", "p%q", "é", "q?r", "h#s", "{br}", "q\"t", "b\\s", "~1", "%41", "a+b", "x=y&z"}
 
@@ -252,6 +256,10 @@ func (g *gen) schema(doc string, d int, ord int, top bool) map[string]interface{
 	}
 	g.uniq++
 	s := map[string]interface{}{"description": fmt.Sprintf("node%d", g.uniq)}
+	if g.r.Intn(4) == 0 {
+		// a primitive type next to composition keywords is legal (and unusual)
+		s["type"] = []string{"object", "string", "array", "integer"}[g.r.Intn(4)]
+	}
 	kws := g.cfg.Keywords
 	n := 1 + g.r.Intn(3)
 	for i := 0; i < n; i++ {
